@@ -31,8 +31,35 @@ def normalise_output(text: str) -> str:
     return _REAL_MARK.sub(STALE_MARK, text) if isinstance(text, str) else text
 
 
+CHARS = {1: "a", 2: "\u00e9", 3: "\u20ac", 4: "\U0001f600"}     # one character per UTF-8 width ("ch" tokens)
+REPLACEMENT = "\ufffd"
+UTF_SHAPES = ("utf", "utfl")
+
+
+def tok_bytes(t, marker=None) -> bytes:
+    """What one unit of the pipe is on the wire; a "by" token is ONE byte of a multi-byte character."""
+    if t[0] == "by":
+        return CHARS[t[1]].encode("utf-8")[t[2] - 1:t[2]]
+    return tok_text(t, marker).encode("utf-8")
+
+
+def encode_units(tokens):
+    """Shell.tla Encode: a character of width w becomes w byte units, every other token is one unit."""
+    out = []
+    for t in tokens:
+        if t[0] == "ch":
+            out += [["by", t[1], i] for i in range(1, t[1] + 1)]
+        else:
+            out.append(t)
+    return out
+
+
 def tok_text(t, marker=None) -> str:
     ty, a, b = t
+    if ty == "ch":
+        return CHARS[a]
+    if ty == "bad":
+        return REPLACEMENT
     if ty == "o":
         return "o%d_%dé" % (a, b)
     if ty == "e":
@@ -67,10 +94,13 @@ def has_env(attr):
     return attr.get("pre", "none") in ("env", "both")
 
 
-def out_tokens(shape, k, cwd=0, env=0):
-    """Output of command k; a "probe" prints the directory (w<cwd>) and the variable (env) it sees."""
+def out_tokens(shape, k, cwd=0, env=0, txt=()):
+    """Output of command k (text: characters); a "probe" prints the directory (w<cwd>) and the variable (env) it
+    sees, "utf"/"utfl" print one character of width w for every w in txt (utfl: and a newline)."""
     if shape == "probe":
         return [["cw", cwd, 0], ["nl", 0, 0], ["ev", env, 0]]
+    if shape in UTF_SHAPES:
+        return [["ch", w, 0] for w in (txt or [])] + ([["nl", 0, 0]] if shape == "utfl" else [])
     return {"empty": [], "nonl": [["o", k, 1]],
             "multi": [["o", k, 1], ["nl", 0, 0], ["e", k, 2], ["o", k, 3], ["nl", 0, 0]],
             "mlike": [["ml", 0, 0], ["nl", 0, 0], ["o", k, 1]]}[shape]
@@ -81,8 +111,9 @@ def text_of(tokens) -> str:
 
 
 def stream_tokens(attr, k, cwd=0, env=0):
-    """Tokens the shell emits for command k (before the end marker), with the stall position."""
-    out = out_tokens(attr["shape"], k, cwd, env)
+    """Units the shell emits for command k (before the end marker), with the stall position ("mid": after the
+    first unit, which is the first BYTE of a text that starts with a multi-byte character)."""
+    out = encode_units(out_tokens(attr["shape"], k, cwd, env, attr.get("txt")))
     if attr["slow"] == "pre" or (attr["slow"] == "mid" and not out):
         return [["stall", 0, 0]] + out
     if attr["slow"] == "mid":
@@ -103,6 +134,22 @@ case "$shape" in
   multi) printf 'o%s_1é' "$k"; mid; printf '\n'; printf 'e%s_2' "$k" >&2; printf 'o%s_3é\n' "$k" ;;
   mlike) printf '%s' 'SF_CMD_END_deadbeef-0000-4000-8000-000000000000:7'; mid; printf '\no%s_1é' "$k" ;;
   probe) printf 'cw=%s' "$(basename "$(pwd -P)")"; mid; printf '\nev=%s' "${VHS-0}" ;;
+  utf:*|utfl:*)
+    # one character per digit w of the suffix, w = number of bytes of its UTF-8 encoding: a, e-acute, euro sign, U+1F600;
+    # the first BYTE is written on its own (a slow command stalls after it, possibly in the middle of a character)
+    w="${shape#*:}"; all=""
+    while [ -n "$w" ]; do
+      rest="${w#?}"; d="${w%"$rest"}"; w="$rest"
+      case "$d" in
+        1) all="$all\\141" ;;
+        2) all="$all\\303\\251" ;;
+        3) all="$all\\342\\202\\254" ;;
+        4) all="$all\\360\\237\\230\\200" ;;
+      esac
+    done
+    tail="${all#????}"; head="${all%"$tail"}"
+    printf "$head"; mid; printf "$tail"
+    case "$shape" in utfl:*) printf '\n' ;; esac ;;
 esac
 echo "$k $$" >> "$dir/done"
 exit "$status"
@@ -116,8 +163,14 @@ def write_cmd_script(d: str) -> str:
     return p
 
 
+def shape_word(attr) -> str:
+    if attr["shape"] in UTF_SHAPES:
+        return "%s:%s" % (attr["shape"], "".join(str(w) for w in (attr.get("txt") or [])))
+    return attr["shape"]
+
+
 def command_for(script, d, k, attr, stall):
-    return ["sh", script, d, str(k), attr["shape"], str(attr["status"]), attr["slow"], str(stall)]
+    return ["sh", script, d, str(k), shape_word(attr), str(attr["status"]), attr["slow"], str(stall)]
 
 
 def workdir_for(d, k, attr):
@@ -207,6 +260,7 @@ class FakeShellProc:
         self.pending = None
         self.read_sizes = []
         self.exited = asyncio.Event()
+        self.split_reads = 0      # chunks delivered that end inside a multi-byte character
         self.cwd = 0              # the shell's own state: directory w<cwd>, value of VHS (0 = unset)
         self.env = 0
 
@@ -277,7 +331,7 @@ class FakeShellProc:
             if t[0] == "stall":
                 self.stalled = True
                 return True
-            self.pipe.append(tok_text(t, self.cur["marker"]).encode())
+            self.pipe.append(tok_bytes(t, self.cur["marker"]))
         self.cur = None
         return True
 
@@ -291,6 +345,8 @@ class FakeShellProc:
         n = min(ntokens, len(self.pipe))
         data = b"".join(self.pipe[:n])
         del self.pipe[:n]
+        if self.pipe and (self.pipe[0][0] & 0xC0) == 0x80:
+            self.split_reads += 1         # this chunk ends in the middle of a multi-byte character
         self.pending.set_result(data)
         return True
 
@@ -309,7 +365,7 @@ class _FakeFreshProc:
         attr = self.world.attr(k)
         if attr["slow"] != "no":
             await asyncio.sleep(self.stall)
-        toks = out_tokens(attr["shape"], k, self.cmd.get("cd") or 0, self.cmd.get("export") or 0)
+        toks = out_tokens(attr["shape"], k, self.cmd.get("cd") or 0, self.cmd.get("export") or 0, attr.get("txt"))
         out = "".join(tok_text(t) for t in toks if self.merged or t[0] != "e")
         err = "" if self.merged else "".join(tok_text(t) for t in toks if t[0] == "e")
         self.returncode = attr["status"]
@@ -609,7 +665,8 @@ async def replay_fake(beh, byte_split=None):
     garbled = {k: any(e["garbled"] for e in world.executions if e["k"] == k) for k in range(1, n + 1)}
     return {"calls": calls, "runs": runs, "garbled": garbled, "skipped": skipped, "unparsed": world.unparsed,
             "unknown_argv": world.unknown_argv, "notes": world.notes, "shells": len(world.shells),
-            "read_sizes": sorted({s for p in world.shells for s in p.read_sizes})}
+            "read_sizes": sorted({s for p in world.shells for s in p.read_sizes}),
+            "split_reads": sum(p.split_reads for p in world.shells)}
 
 
 # ================================================================================================
@@ -650,12 +707,14 @@ async def _wait_lines(path, pred, limit):
     return False
 
 
-async def replay_real(beh, d, script, T, STALL):
+async def replay_real(beh, d, script, T, STALL, bufsize=65536):
     """Real `sh` session through the real BaseConnector.run.  Timing rule: a command that the behaviour calls
-    slow sleeps STALL seconds, calls that carry a timeout use T << STALL."""
+    slow sleeps STALL seconds, calls that carry a timeout use T << STALL.  `bufsize` is the connector's
+    transferBufferSize = the most one read of the shell's stdout returns: the one handle on the chunking that a
+    real pipe offers (1..3 bytes: every multi-byte character is cut by a read)."""
     os.makedirs(d, exist_ok=True)
     Remote = se.make_remote_class()
-    conn = Remote("vh-real", d, 65536)
+    conn = Remote("vh-real", d, bufsize)
     loc = se.location()
     proj = projection(beh)
     n = len(beh["attr"])
